@@ -41,7 +41,7 @@ def scale_twin_check(case, algo, mpo):
     if twin.get("offset_unit"):
         twin["offset_value"] = twin["offset_value"] * c
     basis, terms, offset = L.build(twin)
-    mpo2 = Mpo(Model(basis, []), terms, offset=offset, algo=algo)
+    mpo2 = L.make_mpo(twin, algo)[0]
     if list(mpo.bond_dims) != list(mpo2.bond_dims):
         return "bond dimensions change under an overall scale 2^-%d: %s vs %s" % (k, list(mpo.bond_dims), list(mpo2.bond_dims))
     s1, s2 = _symbolic(mpo), _symbolic(mpo2)
@@ -101,8 +101,7 @@ def check_case(case, algos):
     for algo in case.get("algos", algos):
         tol = TOL_QR if algo.startswith("qr") else TOL
         try:
-            model = Model(basis, [])
-            mpo = Mpo(model, terms, offset=offset, algo=algo)
+            mpo, model = L.make_mpo(case, algo)
             err = L.rel_err(mpo.todense(), ref)
             n_eval += 1
         except Exception as e:
@@ -152,11 +151,12 @@ def check_history(h):
 
     def fail(k, algo, kind, detail, where=None):
         fails.append({"id": h["id"], "algo": algo, "stage": "history", "step": k, "kind": kind, "detail": detail, "where": where})
+    pool = {} if h.get("share_ops") else None      # the SAME Op objects are reused by every construction of the history
     for k, case in enumerate(h["steps"]):
         algo = case["algo"]
         tol = TOL_QR if algo.startswith("qr") else TOL
         try:
-            basis, terms, offset = L.build(case)
+            basis, terms, offset = L.build(case, pool=pool)
             ref = L.ref_dense(case)
             model = Model(basis, terms if case.get("ham") else [])
             if case.get("via_cache"):
